@@ -6,7 +6,9 @@ import OrbitModel.Proofs.CrashHist
 `crash_recovers`: whatever prefix `p` of the trace survives, `recover U (diskOf p)`
  (i) contains every acknowledged write and every entry reported as replicated in `p`,
  (ii) contains only hashes whose block was written in `p`,
- (iii) is closed under `next`,
+ (iii) is closed under `next` (this is where `BatchOk.parents` is used: rejected logs being skipped,
+       a child accepted while its parent is rejected would be recovered with a parent the log never
+       held — `CrashExample.rejected_parent_recovered`),
  (iv) is exactly the hash set of a good, closed log `D` whose entries are entries of the pre-crash log.
 `blocks_before_heads`: when a cache key is written, the blocks of the whole ancestry of the value are
 already on disk.
@@ -75,9 +77,9 @@ theorem valid_inv {acl : Acl} {U : List Entry} (hU : HashDet U) (hM : ClockMono 
   | @merged ops L logs L' _ hB hj hall ih =>
     obtain ⟨hI, hP⟩ := ih
     obtain ⟨hI', hsub⟩ := hI.batch hU hM hB hj
-    have hT : trace (ops ++ [.merged (logs.flatMap (·.1)) ((sortedHeads L').map (·.hash))]) =
+    have hT : trace (ops ++ [.merged (joinedEntries acl L logs) ((sortedHeads L').map (·.hash))]) =
         trace ops ++ [.cacheRemote ((sortedHeads L').map (·.hash))] ++
-          [.replicated ((logs.flatMap (·.1)).map (·.hash))] := by
+          [.replicated ((joinedEntries acl L logs).map (·.hash))] := by
       rw [trace_snoc]; simp [SOp.effects]
     rw [hT]
     obtain ⟨D, hD, hDL⟩ := hP _ (List.prefix_refl _)
@@ -90,19 +92,14 @@ theorem valid_inv {acl : Acl} {U : List Entry} (hU : HashDet U) (hM : ClockMono 
         unfold sortedHeads at hx; exact (Trav.mem_sortDesc _ _ _).mp hx
       exact (has_iff _ _).mpr ⟨x, ((hI'.good.inv.heads x).mp hx').1, rfl⟩
     have d1 := hD.cacheRemote g
-    have d2 := d1.replicated ((logs.flatMap (·.1)).map (·.hash)) (by
+    have d2 := d1.replicated ((joinedEntries acl L logs).map (·.hash)) (by
       intro h hh
       obtain ⟨x, hx, rfl⟩ := List.mem_map.mp hh
-      obtain ⟨q, hq, hxq⟩ := List.mem_flatMap.mp hx
-      exact (has_iff _ _).mpr ⟨x, hall q hq x hxq, rfl⟩)
+      exact (has_iff _ _).mpr ⟨x, hall x hx, rfl⟩)
     refine ⟨⟨hI'.good, hI'.lid, hI'.closed, ?_⟩, ?_⟩
     · intro x hx
       exact List.mem_append_left _ (List.mem_append_left _ (hI'.blocks x hx))
     · exact ((hP.mono hsub).snoc ⟨L', d1, fun _ h => h⟩).snoc ⟨L', d2, fun _ h => h⟩
-  | @aborted ops L logs L' _ hB hj ih =>
-    obtain ⟨hI, hP⟩ := ih
-    obtain ⟨hI', hsub⟩ := hI.batch hU hM hB hj
-    exact ⟨hI', hP.mono hsub⟩
 
 /-- **C05.** Cut the effect trace of a valid history anywhere (`p` is what reached the disk) and
 recover from what is left. -/
